@@ -75,3 +75,39 @@ def check(ctx, prop: str | None = None):
     if unknown and all(o["ok"] for o in ctx.obligations):
         raise AnalysisError(unknown[0] if len(unknown) == 1 else f"{unknown[0]} (+{len(unknown) - 1} more functions)")
     return n
+
+
+def agrees(ctx, target: str, prop: str | None = None) -> bool:
+    """Does the implementation's summary equal the reviewed model of `target` claimed by this property (all components)?"""
+    prop = prop or ctx.prop
+    entries = [m for m in load_index() if m["property"] == prop and m["target"] == target]
+    if not entries:
+        return False
+    m = entries[0]
+    try:
+        f = resolve(ctx.repo, target)
+        params = _codec.decode_params() if m.get("data_is_bytes") else None
+        _codec.IGNORE[:] = list(m.get("ignore", ()))
+        try:
+            found = _codec.signature(_codec.paths_of(ctx, f, params, set(m.get("keep", ()))))
+            want = _codec.signature(_codec.reference_paths(model_text(target), params, like=f, repo=ctx.repo))
+        finally:
+            _codec.IGNORE[:] = []
+    except Exception:  # pylint: disable=broad-except
+        return False
+    if any(mark in t for c in m["components"] for t in found[c] for mark in _codec.LOST):
+        return False
+    return all(found[c] == want[c] for c in m["components"])
+
+
+def guarded(ctx, rule: str, targets, fn, *args, **kwargs):
+    """Run a group of path rules; when they meet a spelling they do not recognise (AnalysisError) but every function of the
+    group still has exactly the summary of its reviewed model - the text on which those rules were established - the
+    clauses carry over: one obligation records that, instead of an analysis error."""
+    try:
+        return fn(ctx, *args, **kwargs)
+    except AnalysisError as exc:
+        if targets and all(agrees(ctx, t) for t in targets):
+            ctx.ob(rule, ", ".join(targets), True, f"path rules do not recognise this spelling ({str(exc)[:160]}); the summaries equal the reviewed models on which the rules hold", key="by-model " + fn.__name__)
+            return None
+        raise
